@@ -20,14 +20,19 @@
                aggregate zero lines of empty kinds) and completeness (that every entity shows up)
                are not constrained by the statement; missing entities are DRIFT.
 
-   Layer 1 (the code): label values are written between the quotes as they are (no escaping),
-   so an answer is predicted broken iff some label value contains \ " or LF (L1Broken).        *)
+   Layer 1 (the code): label values are written with \ " LF escaped (labelValueEscaper), so no answer
+   is predicted broken. The behaviour before the fix (commit "escape label values in the metrics
+   exposition") is kept as the named deviation "RawLabelValues": values written between the quotes as
+   they are, an answer is broken iff some label value contains \ " or LF. Constant L1Variant selects
+   which of the two layer 1 is ("fixed" by default); whatever it is, a failing answer that the deviation
+   predicts broken is reported with deviation = "RawLabelValues".                                  *)
 EXTENDS VerifCommon
 
 CONSTANTS Classes,      \* label-string classes of the bounded model
           Focuses,      \* which kinds are populated: a kind, or "all"
           Counts,       \* entities per populated kind (subset of {1, 2})
           Filters,      \* subset of {"none", "type", "path"}
+          L1Variant,    \* "fixed" (the current code) or the name of a deviation: "RawLabelValues"
           TwoFocuses    \* the focuses that are also populated with two entities per kind (then without filter
                         \* unless TwoFocuses = Focuses)
 
@@ -144,7 +149,11 @@ Failing(r) ==
 \* DRIFT only: an entity without its presence sample in an unfiltered answer
 Missing(r) == {i \in 1..Len(r.ents) :
                  ~\E j \in 1..Len(r.samples) : r.samples[j].key = "" /\ Corresponds(r.samples[j], r.ents[i])}
-L1Broken(ents) == \E i \in 1..Len(ents) : \E m \in 1..Len(ents[i].attrs) : NeedsEscape(ents[i].attrs[m].v)
+Deviations == {"RawLabelValues"}
+RawBroken(ents) == \E i \in 1..Len(ents) : \E m \in 1..Len(ents[i].attrs) : NeedsEscape(ents[i].attrs[m].v)
+L1Broken(ents) == IF L1Variant = "fixed" THEN FALSE ELSE RawBroken(ents)       \* L1Variant = "RawLabelValues"
+DeviationOf(ents) == IF RawBroken(ents) THEN "RawLabelValues" ELSE "none"
+ASSUME L1Variant \in {"fixed"} \cup Deviations
 
 \* ------------------------------------------------------------------ rendering (parser self-check; layer 1 = esc FALSE)
 EscCp(v, esc) ==
